@@ -240,7 +240,7 @@ PROPS["C05"] = {
     "parts": [{"name": "resolve", "pkg": "c05", "chk": "chk_c05"},
               {"name": "versions", "pkg": "c15", "chk": "chk_c15", "args": ["seq"]}],
     "reasons": {"resolve": {"1": "the delivered description's services / methods / streaming kinds / message types / bindings differ from the target's descriptors (or are not exactly the listed valid, non-administrative services)",
-                            "2": "a description was delivered although a listed service's definition or a dependency could not be obtained (partial description instead of an error)",
+                            "2": "a description was delivered although a listed service's definition, a dependency, or a message type one of its methods refers to could not be obtained (partial description instead of an error)",
                             "3": "a conformant server with a complete, consistent descriptor set got an error report instead of a description"},
                 "versions": PROPS["C15"]["reasons"]["seq"]},
     "rule": "resolve: fixed dependency shapes (chain, diamond, re-sent-file graph, fan-out, deep chain, dense DAG) under every policy first, then random descriptor universes (1-6 files, chain/diamond dependency DAGs, 0-2 services per file, 0-2 methods with message types from the file or a dependency, 0-2 bindings of every pattern kind incl. custom verbs) x listed-name lists (subset, duplicates, invalid names, administrative grpc.* names, shuffled) x 8 answering policies (closure, only requested file, requested file + direct imports (later rounds re-send files the client has), grpc-go style minus already sent, dependencies first, duplicated, and two NON-conformant ones: wrong file for a symbol, a dependency never provided) x recursion limits; versions: protocol-version availability histories (shared with C15); non-trivial = universe with more than one file",
